@@ -233,7 +233,7 @@ func solveAll(vcs []*VC, obls []*Obligation, vcOf map[*Obligation]*VC, tier stri
 	if tier == "thorough" {
 		timeout = 60 * time.Second
 	}
-	sem := make(chan struct{}, 8)
+	sem := make(chan struct{}, 12)
 	var wg sync.WaitGroup
 	for i, o := range obls {
 		wg.Add(1)
@@ -266,7 +266,7 @@ func solveAll(vcs []*VC, obls []*Obligation, vcOf map[*Obligation]*VC, tier stri
 			}
 			to := timeout
 			if o.Canary {
-				to = 3 * time.Second
+				to = 1 * time.Second
 			}
 			rs := discharge(o, file, to, tier == "thorough" && !o.Canary)
 			summarize(o, rs)
@@ -338,10 +338,14 @@ func summarize(o *Obligation, rs []solveResult) {
 		o.Model = parseModel(sat.output, o.ReplayQ)
 	default:
 		o.Result = "unknown"
+		nerr := 0
 		for _, r := range rs {
 			if r.result == "error" {
-				o.Result = "error"
+				nerr++
 			}
+		}
+		if nerr == len(rs) && nerr > 0 {
+			o.Result = "error" // no solver could even read the query
 		}
 		o.Output = strings.Join(outs, "; ")
 		// an "unknown" answer of z3 may still carry a candidate model
